@@ -282,6 +282,328 @@ def v1_translation(prog: Program, rep: Report) -> None:
         rep.check(rule, v1.qual, f"{it.split('[')[-1][:-1]} variables go to output.{sec}", ok, what_bad="instance and particle output variables mixed up", what_ok="ok", loc=v1.loc())
 
 
+# ---------------------------------------------------------------------------
+# R18.7 v1 file names: a small evaluator over presence cases of the legacy keys
+# ---------------------------------------------------------------------------
+class _Sym:
+    """A value taken from the input file (assumed a non-empty string)."""
+
+    def __init__(self, path):
+        self.path = path
+
+    def __repr__(self):
+        return f"<{self.path}>"
+
+    def __eq__(self, o):
+        return isinstance(o, _Sym) and o.path == self.path
+
+    def __hash__(self):
+        return hash(self.path)
+
+
+class _Derived:
+    """Result of an uninterpreted call / attribute over values: remembers which inputs it mentions."""
+
+    def __init__(self, syms, text=""):
+        self.syms = frozenset(syms)
+        self.text = text
+
+    def __repr__(self):
+        return f"derived{sorted(s.path for s in self.syms)}"
+
+
+class _Sec:
+    def __init__(self, name):
+        self.name = name
+
+
+class _KeyErr(Exception):
+    pass
+
+
+class _Fork(Exception):
+    def __init__(self, node):
+        self.node = node
+
+
+class _Unsupported(Exception):
+    pass
+
+
+def _syms_of(v):
+    if isinstance(v, _Sym):
+        return {v}
+    if isinstance(v, _Derived):
+        return set(v.syms)
+    if isinstance(v, (list, tuple)):
+        out = set()
+        for x in v:
+            out |= _syms_of(x)
+        return out
+    return set()
+
+
+class _ConfEval:
+    def __init__(self, present: set, choices: dict, cfgname: str = "config"):
+        self.present = present  # {(section, key)}
+        self.choices = choices  # id(test node) -> bool, for tests that cannot be decided
+        self.env: dict = {cfgname: "CONFIG"}
+        self.cfgname = cfgname
+
+    def truth(self, v, node):
+        if isinstance(v, bool):
+            return v
+        if v is None:
+            return False
+        if isinstance(v, (_Sym, _Derived)):
+            return True if isinstance(v, _Sym) or v.syms else self._choice(node)
+        if isinstance(v, (str, int, float, dict, list, tuple)):
+            return bool(v)
+        return self._choice(node)
+
+    def _choice(self, node):
+        k = (node.lineno, node.col_offset)
+        if k not in self.choices:
+            raise _Fork(k)
+        return self.choices[k]
+
+    def ev(self, e):
+        if isinstance(e, ast.Constant):
+            return e.value
+        if isinstance(e, ast.Name):
+            if e.id in self.env:
+                return self.env[e.id]
+            return _Derived(set(), e.id)
+        if isinstance(e, ast.Subscript):
+            b = self.ev(e.value)
+            k = self.ev(e.slice)
+            if b == "CONFIG" and isinstance(k, str):
+                return _Sec(k)
+            if isinstance(b, _Sec) and isinstance(k, str):
+                if (b.name, k) in self.present:
+                    return _Sym(f"{b.name}.{k}")
+                if (b.name, k) in self.absent_tracked:
+                    raise _KeyErr(f"{b.name}.{k}")
+                return _Sym(f"{b.name}.{k}")  # keys outside the studied ones: present
+            if isinstance(b, dict):
+                if isinstance(k, (str, int)) and k in b:
+                    return b[k]
+                raise _KeyErr(str(k))
+            return _Derived(_syms_of(b) | _syms_of(k), unparse(e))
+        if isinstance(e, ast.Compare) and len(e.ops) == 1 and isinstance(e.ops[0], (ast.In, ast.NotIn)):
+            k = self.ev(e.left)
+            c = self.ev(e.comparators[0])
+            neg = isinstance(e.ops[0], ast.NotIn)
+            if isinstance(c, _Sec) and isinstance(k, str):
+                if (c.name, k) in self.present:
+                    r = True
+                elif (c.name, k) in self.absent_tracked:
+                    r = False
+                else:
+                    return self._choice(e) ^ neg
+                return r ^ neg
+            if isinstance(c, dict) and isinstance(k, (str, int)):
+                return (k in c) ^ neg
+            if c == "CONFIG" and isinstance(k, str):
+                return True ^ neg if k in ("gridforce", "files") else self._choice(e) ^ neg
+            return self._choice(e) ^ neg
+        if isinstance(e, ast.Compare):
+            return self._choice(e)
+        if isinstance(e, ast.BoolOp):
+            if isinstance(e.op, ast.And):
+                v = True
+                for x in e.values:
+                    v = self.ev(x)
+                    if not self.truth(v, x):
+                        return v
+                return v
+            v = False
+            for x in e.values:
+                v = self.ev(x)
+                if self.truth(v, x):
+                    return v
+            return v
+        if isinstance(e, ast.UnaryOp) and isinstance(e.op, ast.Not):
+            return not self.truth(self.ev(e.operand), e.operand)
+        if isinstance(e, ast.IfExp):
+            return self.ev(e.body) if self.truth(self.ev(e.test), e.test) else self.ev(e.orelse)
+        if isinstance(e, ast.Dict):
+            return {self.ev(k): self.ev(v) for k, v in zip(e.keys, e.values) if k is not None}
+        if isinstance(e, ast.Call):
+            fn = unparse(e.func)
+            if fn == "dict" and not e.args:
+                return {kw.arg: self.ev(kw.value) for kw in e.keywords if kw.arg}
+            if isinstance(e.func, ast.Attribute) and e.func.attr == "get" and 1 <= len(e.args) <= 2:
+                b = self.ev(e.func.value)
+                k = self.ev(e.args[0])
+                dflt = self.ev(e.args[1]) if len(e.args) == 2 else None
+                if isinstance(b, _Sec) and isinstance(k, str):
+                    if (b.name, k) in self.present:
+                        return _Sym(f"{b.name}.{k}")
+                    if (b.name, k) in self.absent_tracked:
+                        return dflt
+                    return _Sym(f"{b.name}.{k}")
+                if isinstance(b, dict):
+                    return b.get(k, dflt)
+            if isinstance(e.func, ast.Attribute) and e.func.attr in ("copy",) and not e.args:
+                b = self.ev(e.func.value)
+                if isinstance(b, dict):
+                    return dict(b)
+            vals = [self.ev(a) for a in e.args] + [self.ev(k.value) for k in e.keywords]
+            recv = self.ev(e.func.value) if isinstance(e.func, ast.Attribute) else None
+            return _Derived(_syms_of(vals) | _syms_of(recv), unparse(e)[:40])
+        if isinstance(e, ast.Attribute):
+            b = self.ev(e.value)
+            return _Derived(_syms_of(b), unparse(e))
+        if isinstance(e, (ast.Tuple, ast.List)):
+            return [self.ev(x) for x in e.elts]
+        if isinstance(e, ast.JoinedStr):
+            return _Derived(set().union(*[_syms_of(self.ev(v.value)) for v in e.values if isinstance(v, ast.FormattedValue)]) if any(isinstance(v, ast.FormattedValue) for v in e.values) else set(), "fstring")
+        if isinstance(e, ast.BinOp):
+            return _Derived(_syms_of(self.ev(e.left)) | _syms_of(self.ev(e.right)), unparse(e)[:40])
+        raise _Unsupported(unparse(e)[:60])
+
+    absent_tracked: set = set()
+
+    def store(self, t, v):
+        if isinstance(t, ast.Name):
+            self.env[t.id] = v
+            return
+        if isinstance(t, ast.Subscript):
+            b = self.ev(t.value)
+            k = self.ev(t.slice)
+            if isinstance(b, dict) and isinstance(k, (str, int)):
+                b[k] = v
+                return
+            if isinstance(b, (_Sec,)) or b == "CONFIG":
+                return  # writes into the input configuration: not part of the result studied here
+            return
+        if isinstance(t, (ast.Tuple, ast.List)) and isinstance(v, list) and len(v) == len(t.elts):
+            for a, b in zip(t.elts, v):
+                self.store(a, b)
+            return
+        raise _Unsupported(unparse(t)[:60])
+
+    def run(self, stmts):
+        for st in stmts:
+            if isinstance(st, (ast.Assign, ast.AnnAssign)):
+                if st.value is None:
+                    continue
+                v = self.ev(st.value)
+                for t in st.targets if isinstance(st, ast.Assign) else [st.target]:
+                    self.store(t, v)
+            elif isinstance(st, ast.If):
+                self.run(st.body if self.truth(self.ev(st.test), st.test) else st.orelse)
+            elif isinstance(st, ast.Expr):
+                continue
+            elif isinstance(st, ast.Return):
+                self.result = self.ev(st.value) if st.value is not None else None
+                return
+            elif isinstance(st, ast.Pass):
+                continue
+            else:
+                raise _Unsupported(short(st))
+
+
+def _relevant_slice(fn: ast.FunctionDef, wanted=(("forcing", "filename"), ("grid", "filename"))):
+    """Top-level statements of `fn` that can affect conf2[sec][key] for the wanted pairs: those writing
+    conf2[sec] / conf2[sec][key] (or all of conf2), plus the definitions of the local names they read."""
+    secs = {s for s, _ in wanted}
+    names: set = set()
+    rel: list = []
+
+    def writes_wanted(st) -> bool:
+        for x in ast.walk(st):
+            if isinstance(x, ast.Subscript) and isinstance(x.ctx, ast.Store):
+                txt = unparse(x)
+                for s_, k_ in wanted:
+                    if txt in (f"conf2['{s_}']['{k_}']", f"conf2['{s_}']"):
+                        return True
+            if isinstance(x, ast.Name) and isinstance(x.ctx, ast.Store) and x.id == "conf2":
+                return True
+        return False
+
+    def reads(st) -> set:
+        return {x.id for x in ast.walk(st) if isinstance(x, ast.Name) and isinstance(x.ctx, ast.Load)}
+
+    def stores(st) -> set:
+        return {x.id for x in ast.walk(st) if isinstance(x, ast.Name) and isinstance(x.ctx, ast.Store)}
+
+    body = [st for st in fn.body if not (isinstance(st, ast.Expr) and isinstance(st.value, ast.Constant))]
+    changed = True
+    chosen: set = set()
+    while changed:
+        changed = False
+        for i, st in enumerate(body):
+            if i in chosen:
+                continue
+            if writes_wanted(st) or (stores(st) & names):
+                chosen.add(i)
+                names |= reads(st)
+                changed = True
+    return [body[i] for i in sorted(chosen)]
+
+
+def v1_filenames(prog: Program, rep: Report) -> None:
+    rule = "R18.7"
+    import itertools
+
+    v1 = cfg(prog, "configure_v1")
+    sl = _relevant_slice(v1.node)
+    if len(sl) < 3:
+        raise AnalysisError("configure_v1: statements producing forcing.filename / grid.filename not found")
+    keys = [("gridforce", "input_file"), ("files", "input_file"), ("gridforce", "gridfile"), ("files", "gridfile")]
+    for combo in itertools.product((True, False), repeat=4):
+        present = {k for k, on in zip(keys, combo) if on}
+        label = ", ".join(f"{s}.{k}" for s, k in keys if (s, k) in present) or "neither name given"
+        want_f = _Sym("gridforce.input_file") if keys[0] in present else _Sym("files.input_file") if keys[1] in present else ""
+        want_g = _Sym("gridforce.gridfile") if keys[2] in present else _Sym("files.gridfile") if keys[3] in present else None
+        pending = [dict()]
+        outcomes = []
+        guard = 0
+        while pending and guard < 64:
+            guard += 1
+            ch = pending.pop()
+            ev = _ConfEval(present, ch)
+            ev.absent_tracked = set(keys) - present
+            try:
+                ev.run(sl)
+                outcomes.append((ch, ev.env.get("conf2")))
+            except _Fork as f:
+                pending.append({**ch, f.node: True})
+                pending.append({**ch, f.node: False})
+            except _KeyErr as e:
+                outcomes.append((ch, f"KeyError {e}"))
+            except _Unsupported as e:
+                outcomes.append((ch, f"unsupported {e}"))
+        bad = []
+        undecided = []
+        for ch, c2 in outcomes:
+            if isinstance(c2, str):
+                (undecided if c2.startswith("unsupported") else bad).append(c2)
+                continue
+            if not isinstance(c2, dict):
+                undecided.append("conf2 not built")
+                continue
+            f = c2.get("forcing", {}).get("filename", "<missing>") if isinstance(c2.get("forcing"), dict) else "<missing>"
+            g = c2.get("grid", {}).get("filename", "<missing>") if isinstance(c2.get("grid"), dict) else "<missing>"
+            if f != want_f:
+                bad.append(f"forcing.filename = {f!r}, the file says {want_f!r}")
+            if want_g is not None:
+                if g != want_g:
+                    bad.append(f"grid.filename = {g!r}, the file says {want_g!r}")
+            elif want_f == "":
+                if g not in ("", None):
+                    bad.append(f"grid.filename = {g!r} although neither a grid nor a forcing file is named")
+            else:
+                if not (isinstance(g, _Derived) and want_f in g.syms or g == want_f):
+                    bad.append(f"grid.filename = {g!r}; without a gridfile entry it must be derived from the forcing file {want_f!r}")
+        if undecided and not bad:
+            rep.add(rule, v1.qual, f"v1 file names, {label}", None, f"outside the evaluator: {undecided[0]}", v1.loc())
+        else:
+            rep.check(rule, v1.qual, f"v1 file names, {label}", not bad, what_bad="; ".join(sorted(set(bad))[:3]) + ": the legacy spelling runs with other files than its v2 spelling", what_ok=f"forcing <- {want_f!r}, grid <- {want_g!r}" if want_g is not None else f"forcing <- {want_f!r}, grid defaults to the forcing file", loc=v1.loc())
+
+
 def run(prog: Program, rep: Report, tier: str) -> None:
     rep.level = "other"
     rep.explanation = (
@@ -299,18 +621,23 @@ def run(prog: Program, rep: Report, tier: str) -> None:
     rep.rule("R18.4", "YAML, TOML and v1 converge on one configuration object; version dispatch exhaustive", 7)
     rep.rule("R18.5", "wildcard: grid file defaults to the sorted first match of the forcing pattern in both versions", 4)
     rep.rule("R18.6", "v1 vocabulary maps to v2 keys of the same meaning", 14)
+    rep.rule("R18.7", "v1 input_file / gridfile: each looked up in gridforce, then files, independently, for all 16 presence cases", 16)
     key_table(prog, rep)
     sections(prog, rep)
     optional_discipline(prog, rep)
     one_path(prog, rep)
     wildcard(prog, rep)
     v1_translation(prog, rep)
+    v1_filenames(prog, rep)
 
 
 from ..selftest import Mut  # noqa: E402
 
 CF = "ladim/configure.py"
 AUDIT = [
+    Mut("v1-gridfile-files-only", CF, '''    if "gridfile" in config["gridforce"]:\n        conf2["grid"]["filename"] = config["gridforce"]["gridfile"]\n    elif "gridfile" in config["files"]:\n        conf2["grid"]["filename"] = config["files"]["gridfile"]\n    else:\n        conf2["grid"]["filename"] = ""\n''', '''    conf2["grid"]["filename"] = config["files"].get("gridfile", "")\n''', rule="R18.7"),
+    Mut("v1-gridfile-priority-swapped", CF, '''    if "gridfile" in config["gridforce"]:\n        conf2["grid"]["filename"] = config["gridforce"]["gridfile"]\n    elif "gridfile" in config["files"]:\n        conf2["grid"]["filename"] = config["files"]["gridfile"]\n    else:\n        conf2["grid"]["filename"] = ""\n''', '''    if "gridfile" in config["files"]:\n        conf2["grid"]["filename"] = config["files"]["gridfile"]\n    elif "gridfile" in config["gridforce"]:\n        conf2["grid"]["filename"] = config["gridforce"]["gridfile"]\n    else:\n        conf2["grid"]["filename"] = ""\n''', rule="R18.7"),
+    Mut("benign-v1-gridfile-get-chain", CF, '''    if "gridfile" in config["gridforce"]:\n        conf2["grid"]["filename"] = config["gridforce"]["gridfile"]\n    elif "gridfile" in config["files"]:\n        conf2["grid"]["filename"] = config["files"]["gridfile"]\n    else:\n        conf2["grid"]["filename"] = ""\n''', '''    conf2["grid"]["filename"] = config["gridforce"].get("gridfile", config["files"].get("gridfile", ""))\n''', expect="silent"),
     Mut("forcing-module-hard", CF, '    if "module" not in config["grid"] and "module" in config["forcing"]:', '    if "module" not in config["grid"]:', rule="R18.3"),
     Mut("v1-key-renamed", CF, '        output_period=config["output_variables"]["outper"],', '        period=config["output_variables"]["outper"],', rule="R18.1"),
     Mut("v1-release-key", CF, '        release_file=config["files"]["particle_release_file"],', '        file=config["files"]["particle_release_file"],', rule="R18.1"),
